@@ -240,6 +240,34 @@ fn limit_scenario(c: &mut Ctx) {
             }
         }
     }
+    // overlapping replicas whose UNION exceeds the limit: the merge must be refused and - sharing operations or not -
+    // a refused merge leaves both replicas exactly as they were
+    {
+        let ops = mint(1060);
+        let (lo, hi) = (c.cx.rng.gen_range(40..400), c.cx.rng.gen_range(700..1020));
+        let (mut a, mut b) = (base.clone(), base.clone());
+        for op in &ops[..hi] {
+            let _ = a.add_op(op.clone());
+        }
+        for op in &ops[lo..] {
+            let _ = b.add_op(op.clone());
+        }
+        for verified in [false, true] {
+            c.cx.eval();
+            c.cx.count("limit:overlap-merges-beyond-the-limit");
+            let (mut ab, mut ba) = (a.clone(), b.clone());
+            let (r1, r2) = if verified { (ab.verified_merge(&b), ba.verified_merge(&a)) } else { (ab.merge(&b), ba.merge(&a)) };
+            if r1.is_ok() || r2.is_ok() {
+                c.cx.violation("merge-beyond-entry-limit-accepted", format!("replicas of {} and {} ops sharing {} whose union is 1060 were merged: {r1:?} / {r2:?}", a.ops().len(), b.ops().len(), hi - lo), json!({"verified": verified}));
+            } else if ab.ops() != a.ops() || ba.ops() != b.ops() {
+                c.cx.violation(
+                    "refused-merge-changed-replica",
+                    format!("a merge of overlapping replicas ({} and {} ops, {} shared, union 1060) was refused ({r1:?}) yet the replicas went to {} / {} operations", a.ops().len(), b.ops().len(), hi - lo, ab.ops().len(), ba.ops().len()),
+                    json!({"verified": verified, "overlapping": true}),
+                );
+            }
+        }
+    }
     c.cx.nontrivial(&("limit", c.cx.index, n1, accepted));
 }
 
